@@ -241,6 +241,7 @@ func checkC04(p *Prog, l *Ledger) {
 	checkCallProtocol(cs, l)
 	checkClosureWiring(cs, l, "C04/S4-closure")
 	checkASTReadOnly(p, l)
+	checkBalancedCounters(p, l, "C04/S6-balanced-activation-state")
 }
 
 // checkASTReadOnly: after parsing, nothing writes into AST nodes — evaluations of the same node
@@ -450,7 +451,11 @@ func checkFunctionCall(cs *clauseSet, l *Ledger) {
 	if !okParam {
 		l.Violate("C04/S3-binding", "Function.Call#define(param)", "", "no positional parameter binding found")
 	}
-	_ = okSelf
+	if okSelf {
+		l.Discharge("C04/S3-binding", "Function.Call#define(self)", "", "the activation binds the function's own name to the function value (the body's references to its name, and a `ধরি` of that name in the body, resolve in the activation)", true)
+	} else {
+		l.Violate("C04/S3-binding", "Function.Call#define(self)", "", "the activation no longer binds the function's own name: inside the body the name resolves through the closure instead (a rebound or aliased function recurses into the wrong function, an assignment to the name in the body escapes the call, `ধরি` of the name is no longer a redeclaration)")
+	}
 	// Arity = len(Params)
 	ar := cs.p.Func("interpreter.(*Function).Arity")
 	if ar == nil {
